@@ -192,4 +192,45 @@ def checkMetric (o : MetricObs α) : Bool × Bool × Bool × Bool × Bool :=
    near o.tol o.dr o.dab)
 end check
 
+/-! ### batches and the shape test of `angular_distance` -/
+section batch
+variable [Add α] [Sub α] [Mul α] [Div α] [Neg α] [Max α] [Min α] [OfNat α 0] [OfNat α 1] [OfNat α 2] [OfNat α 180]
+/-- `angular_distance` on two batches of quaternions: when the two batches differ in size the code
+prints "The size of input rotations differ!!!" and returns `None`; otherwise one distance per pair -/
+def angDistBatch (L : Libm α) (ps qs : List (Q4 α)) : Option (List α) :=
+  if ps.length = qs.length then some ((ps.zip qs).map fun pq => angDist L pq.1 pq.2) else none
+end batch
+
+/-! ### `compare_rotations`: which primitive every `rotation_type` returns (table regenerated from the source) -/
+section compare
+/-- the three numbers `compare_rotations` computes before it looks at `rotation_type` -/
+structure Prims (α : Type) where
+  ang : α
+  cone : α
+  inp : α
+
+def roleVal (v : Prims α) : String → Option α
+  | "ang" => some v.ang
+  | "cone" => some v.cone
+  | "inp" => some v.inp
+  | _ => none
+
+/-- `compare_rotations(a, b, rotation_type=t)`: the FIRST branch of the `if`/`elif` chain whose literal equals
+`t` decides which of the three numbers are returned (in the order of the `return`); when no branch matches the
+code raises `UserInputError` (`none`) -/
+def compareRotations (table : List (String × List String)) (t : String) (v : Prims α) : Option (List α) :=
+  match table.find? (fun e => e.1 == t) with
+  | some e => e.2.mapM (roleVal v)
+  | none => none
+
+/-- `normals_to_euler_angles(..., output_order=o)`: which quantity every output column holds; `"*"` is the
+`else` branch -/
+def n2eColumns (table : List (String × List String)) (o : String) : List String :=
+  match table.find? (fun e => e.1 == o) with
+  | some e => e.2
+  | none => match table.find? (fun e => e.1 == "*") with
+    | some e => e.2
+    | none => []
+end compare
+
 end CryoCat.C06
